@@ -58,6 +58,8 @@ def gen(tier, rng):
     for t in ts:
         for client in "sa":
             cases.append(f"wstall\t{client}\t{t}\t16")
+            # the stall is in the TCP connect itself (full accept queue, SYNs dropped)
+            cases.append(f"cstall\t{client}\t{t}\t-")
     # no stall at all: must not be slowed down
     for client in "sa":
         cases.append(pool_case(client, 200, 1, False, 2, "a@b.c", ["x@y.z"], b"m\r\n", [happy(1) + [step(b"250 ok\r\n")] + happy(1)[2:]]))
@@ -66,12 +68,12 @@ def gen(tier, rng):
 
 def timing_dependent(case):
     # a real client against a real peer with read timeouts: a disagreement is re-run alone before it counts
-    return case.split("\t")[0] in ("pool", "wstall", "client", "tls", "sched")
+    return case.split("\t")[0] in ("pool", "wstall", "cstall", "client", "tls", "sched")
 
 
 def nontrivial(case):
     f = case.split("\t")
-    return f[0] == "wstall" or f[4] == "1"
+    return f[0] in ("wstall", "cstall") or f[4] == "1"
 
 
 def shrinkable(case):
@@ -82,6 +84,9 @@ def distribution(cases):
     d = {}
     for c in cases:
         f = c.split("\t")
+        if f[0] == "cstall":
+            d["connect_stall"] = d.get("connect_stall", 0) + 1
+            continue
         if f[0] == "wstall":
             d["blocked_write"] = d.get("blocked_write", 0) + 1
             continue
